@@ -333,13 +333,15 @@ def dropTrailingPartial : List (Entry × Bool) → List (Entry × Bool)
     | [] => if f.2 then [] else [f]
     | r => f :: r
 
-/-- second half of `Oplog::open`: the entries after the header slots -/
+/-- second half of `Oplog::open`: the entries after the header slots; whatever follows the entries that
+    were read (entries of the previous header not yet truncated away, a torn tail) is cut off -/
 def readLog (o : OpenOutcome) (existing : Bytes) : R OpenOutcome :=
   if existing.length > Spec.entriesOffset then
     match readEntries o.state.currentBit (existing.length) (existing.drop Spec.entriesOffset) with
     | .error e => .error e
     | .ok (es, n) =>
       .ok { o with state := { o.state with entriesLength := es.length, entriesByteLength := n },
+                   ops := o.ops ++ (if existing.length > Spec.entriesOffset + n then [.trunc .oplog (Spec.entriesOffset + n)] else []),
                    entries := (dropTrailingPartial es).map (·.1) }
   else .ok o
 
